@@ -89,23 +89,29 @@ Theorem C08_refuted_F08b :
 Proof. exact refuted_F08b. Qed.
 Print Assumptions C08_refuted_F08b.
 
-(* F08c: the implementation's call tree on `Alias: {$ref: Target}`: every guard holds, every state is terminal,
-   the tracker is at rest — and the declared name Alias is not registered (the skeleton does not ensure it) *)
-Theorem C08_refuted_F08c :
+(* F08c is fixed: regression — the fixed implementation's call tree on `Alias: {$ref: Target}` registers both
+   declared names *)
+Theorem C08_regress_F08c :
   let c := run_list (init default_max_depth) tops_F08c in
-  rest c /\ guard_F08b default_max_depth tops_F08c = true /\ guard_F08a default_max_depth tops_F08c = true
+  rest c /\ guard_F08b default_max_depth tops_F08c = true
   /\ forallb (fun n => terminal (state_of c n)) declared_F08c = true
-  /\ all_present declared_F08c c = false.
-Proof. exact refuted_F08c. Qed.
-Print Assumptions C08_refuted_F08c.
+  /\ all_present declared_F08c c = true.
+Proof. exact regress_F08c. Qed.
+Print Assumptions C08_regress_F08c.
 
-(* F08d: the empty schema name stays IN_PROGRESS for ever *)
-Theorem C08_refuted_F08d :
-  let c := run_list (init default_max_depth) tops_F08d in
-  rest c /\ guard_F08b default_max_depth tops_F08d = true /\ forallb names_truthy tops_F08d = false
+(* F08d is fixed in the loader (empty component names are rejected before parsing; the witness now has an empty
+   trace).  Why the name theorems keep the hypothesis n <> []: the tracker still leaves "" IN_PROGRESS. *)
+Theorem C08_regress_F08d :
+  rest (run_list (init default_max_depth) []) /\ g_entered (run_list (init default_max_depth) []) = [].
+Proof. exact regress_F08d. Qed.
+Print Assumptions C08_regress_F08d.
+
+Theorem C08_tracker_empty_name :
+  let c := run_list (init default_max_depth) tops_empty_name in
+  rest c /\ forallb names_truthy tops_empty_name = false
   /\ In [] (g_entered c) /\ state_of c [] = InProgress.
-Proof. exact refuted_F08d. Qed.
-Print Assumptions C08_refuted_F08d.
+Proof. exact tracker_empty_name. Qed.
+Print Assumptions C08_tracker_empty_name.
 
 Theorem C08_guard_nonvacuous :
   guard_F08b default_max_depth tops_ring = true /\ forallb names_truthy tops_ring = true
